@@ -213,7 +213,7 @@ def _gen_teacher_forced(rng, tier, j):
         "class": "ocd_teacher_forced", "kind": "loss", "ref": refs, "hyp": hyps, "logits": logits, "V": V, "eos": eos,
         "include_eos": rng.random() < 0.5, "batch_first": rng.random() < 0.5,
         "reduction": "mean" if rng.random() < 0.8 else rng.choice(["none", "sum"]), "costs": [1.0, 1.0, 1.0],
-        "ignore_index": rng.choice([-2, -100, -1]), "form": rng.choice(["functional", "module"]),
+        "ignore_index": rng.choice([-2, -100, -1, V, V + 7]), "form": rng.choice(["functional", "module"]),
         "R": R, "H": H,
     }
     probe = gen_loss_case(rng, tier, LOSS_CLASSES.index(rng.choice(["ocd_ragged", "ocd_mismatch"])))
@@ -295,7 +295,7 @@ def gen_loss_case(rng, tier, j):
         "class": cls, "kind": "loss", "ref": refs, "hyp": hyps, "logits": logits, "V": V, "eos": eos,
         "include_eos": include_eos, "batch_first": rng.random() < 0.5,
         "reduction": ["none", "sum", "mean"][(j // len(LOSS_CLASSES)) % 3], "costs": costs,
-        "ignore_index": rng.choice([-2, -100, -1]), "form": rng.choice(["functional", "module"]),
+        "ignore_index": rng.choice([-2, -100, -1, V, V + 7]), "form": rng.choice(["functional", "module"]),
         "R": R, "H": H,
     }
 
